@@ -82,10 +82,11 @@ def gen_potable_eam(rng, fs=False, target=None):
     rng.shuffle(pairs)
     species = {}
     for e in els:
-        if rng.random() < 0.4: species[e + '.atomic_mass'] = repr(round(rng.uniform(1, 200), 3))
-        if rng.random() < 0.3: species[e + '.lattice_constant'] = repr(round(rng.uniform(2.5, 6), 3))
+        # one override in four is a zero: an override of 0 is an override (not "nothing given")
+        if rng.random() < 0.4: species[e + '.atomic_mass'] = repr(round(rng.uniform(1, 200), 3)) if rng.random() < 0.75 else '0.0'
+        if rng.random() < 0.3: species[e + '.lattice_constant'] = repr(round(rng.uniform(2.5, 6), 3)) if rng.random() < 0.75 else '0.0'
         if rng.random() < 0.3: species[e + '.lattice_type'] = rng.choice(['bcc', 'hcp', 'fcc'])
-        if rng.random() < 0.15: species[e + '.atomic_number'] = str(rng.randint(1, 118))
+        if rng.random() < 0.2: species[e + '.atomic_number'] = str(rng.randint(1, 118)) if rng.random() < 0.7 else '0'
     return {'potable_eam': True, 'embed': embed, 'dens': dens, 'ppairs': pairs, 'species': species, 'fs': fs,
             'nr': rng.choice([2, 3, 5, 8, 11]), 'nrho': rng.choice([2, 3, 6, 9]), 'cutoff': rng.choice([6.0, 5.5, 7.25]), 'cutoff_rho': rng.choice([50.0, 100.0, 2.5]),
             'target': target or 'setfl'}
